@@ -239,6 +239,153 @@ theorem typesFirstOccurrence_snoc (elems : List String) (e : String) :
 theorem cml_repeated_id_last_wins :
     lastIndexOf? ["a1", "a2", "a1"] "a1" = some 2 ∧ indexOf? ["a1", "a2", "a1"] "a1" = some 0 := by decide
 
+/-! ### the element layer: namespaces, foreign elements, malformed entries -/
+
+theorem mapExcept_map_congr {α β} (f : β → Except Err α) (g : β → β) (hg : ∀ e, f (g e) = f e) (l : List β) :
+    mapExcept f (l.map g) = mapExcept f l := by
+  induction l with
+  | nil => rfl
+  | cons x xs ih => simp only [List.map_cons, mapExcept, hg, ih]
+
+theorem mapExcept_ok_length {α β} (f : β → Except Err α) (l : List β) (ys : List α) (h : mapExcept f l = .ok ys) :
+    ys.length = l.length ∧ ∀ i : Nat, (l[i]?).map f = (ys[i]?).map Except.ok := by
+  induction l generalizing ys with
+  | nil => unfold mapExcept at h; cases h; simp
+  | cons x xs ih =>
+    unfold mapExcept at h
+    cases hx : f x with
+    | error e => rw [hx] at h; cases h
+    | ok y =>
+      rw [hx] at h
+      cases hr : mapExcept f xs with
+      | error e => rw [hr] at h; cases h
+      | ok zs =>
+        rw [hr] at h
+        cases h
+        obtain ⟨h1, h2⟩ := ih zs hr
+        refine ⟨by simp [h1], ?_⟩
+        intro i
+        cases i with
+        | zero => simp [hx]
+        | succ j => simpa using h2 j
+
+theorem selectLocal_renamespace (loc : String) (f : CmlElem → Option String) (elems : List CmlElem) :
+    selectLocal loc (renamespace f elems) = renamespace f (selectLocal loc elems) := by
+  unfold selectLocal renamespace
+  rw [List.filter_map]
+  rfl
+
+/-- **cml_namespace_invariant.** Moving the element names of a document into any namespaces (none, a default namespace,
+    a prefix, different ones for different elements) changes nothing in what is loaded, errors included: only local
+    names select the atom and bond entries. -/
+theorem cml_namespace_invariant (table : MassTable) (f : CmlElem → Option String) (elems : List CmlElem) :
+    loadCmlElemsWith selectLocal table (renamespace f elems) = loadCmlElemsWith selectLocal table elems := by
+  have ha : ∀ l, mapExcept atomOf (renamespace f l) = mapExcept atomOf l := fun l =>
+    mapExcept_map_congr atomOf (fun e => { e with name := ⟨f e, e.name.loc⟩ }) (fun _ => rfl) l
+  have hb : ∀ l, mapExcept bondRawOf (renamespace f l) = mapExcept bondRawOf l := fun l =>
+    mapExcept_map_congr bondRawOf (fun e => { e with name := ⟨f e, e.name.loc⟩ }) (fun _ => rfl) l
+  unfold loadCmlElemsWith
+  rw [selectLocal_renamespace, selectLocal_renamespace, ha, hb]
+
+/-- elements that are neither atom nor bond entries (atomArray, bondArray, propertyList, …) play no role -/
+theorem cml_ignores_other_elements (table : MassTable) (elems : List CmlElem) :
+    loadCmlElemsWith selectLocal table
+        (elems.filter (fun e => decide (e.name.loc = "atom") || decide (e.name.loc = "bond")))
+      = loadCmlElemsWith selectLocal table elems := by
+  have h1 : selectLocal "atom" (elems.filter (fun e => decide (e.name.loc = "atom") || decide (e.name.loc = "bond")))
+      = selectLocal "atom" elems := by
+    unfold selectLocal
+    rw [List.filter_filter]
+    apply List.filter_congr
+    intro e _
+    by_cases h : e.name.loc = "atom" <;> simp [h]
+  have h2 : selectLocal "bond" (elems.filter (fun e => decide (e.name.loc = "atom") || decide (e.name.loc = "bond")))
+      = selectLocal "bond" elems := by
+    unfold selectLocal
+    rw [List.filter_filter]
+    apply List.filter_congr
+    intro e _
+    by_cases h : e.name.loc = "bond" <;> simp [h]
+  unfold loadCmlElemsWith
+  rw [h1, h2]
+
+/-- **cml_doc_reduces.** A document whose atom elements carry all five attributes and whose bond elements carry
+    `atomRefs2` with exactly two known references and an `order` loads exactly as the list of those records does —
+    so `cml_spec_atoms`, `cml_spec_bonds`, `cml_rename_invariant`, `cml_no_bonds`, `types_first_occurrence` speak about
+    the element layer too. -/
+theorem cml_doc_reduces (table : MassTable) (elems : List CmlElem) (atoms : List CmlAtom)
+    (raws : List (List String × Rat)) (bonds : List CmlBond)
+    (ha : mapExcept atomOf (selectLocal "atom" elems) = .ok atoms) (hne : atoms ≠ [])
+    (hr : mapExcept bondRawOf (selectLocal "bond" elems) = .ok raws)
+    (hb : mapExcept (bondOf (atoms.map (·.id))) raws = .ok bonds) :
+    loadCmlElemsWith selectLocal table elems = loadCmlWith table atoms bonds
+    ∧ atoms.length = (selectLocal "atom" elems).length ∧ bonds.length = (selectLocal "bond" elems).length := by
+  have e1 : atoms.isEmpty = false := by cases atoms with
+    | nil => exact absurd rfl hne
+    | cons _ _ => rfl
+  refine ⟨by unfold loadCmlElemsWith; simp [ha, e1, hr, hb], (mapExcept_ok_length _ _ _ ha).1, ?_⟩
+  rw [(mapExcept_ok_length _ _ _ hb).1, (mapExcept_ok_length _ _ _ hr).1]
+
+/-- what the modelled rejections are: no atom element at all is a ValueError, an atom element lacking one of its five
+    attributes a KeyError -/
+theorem cml_doc_rejections (table : MassTable) (elems : List CmlElem) :
+    (selectLocal "atom" elems = [] → loadCmlElemsWith selectLocal table elems = .error (.reject "value"))
+    ∧ (∀ e rest, selectLocal "atom" elems = e :: rest →
+        (e.id = none ∨ e.elementType = none ∨ e.x3 = none ∨ e.y3 = none ∨ e.z3 = none) →
+        loadCmlElemsWith selectLocal table elems = .error (.reject "key")) := by
+  constructor
+  · intro h; unfold loadCmlElemsWith; rw [h]; rfl
+  · intro e rest h hm
+    unfold loadCmlElemsWith
+    rw [h]
+    have : atomOf e = .error (.reject "key") := by
+      unfold atomOf
+      rcases hm with h | h | h | h | h <;> (rw [h]; try (split <;> first | rfl | simp_all))
+    simp only [mapExcept, this]
+
+/-- without namespaces the lookup before the repair and the present one select the same elements -/
+theorem select_agree_without_namespace (loc : String) (elems : List CmlElem) (h : ∀ e ∈ elems, e.name.ns = none) :
+    selectUnqualified loc elems = selectLocal loc elems := by
+  unfold selectUnqualified selectLocal
+  apply List.filter_congr
+  intro e he
+  have hn := h e he
+  cases hname : e.name with
+  | mk ns l =>
+    rw [hname] at hn
+    simp only at hn
+    subst hn
+    simp
+
+def exNs : Option String := some "http://www.xml-cml.org/schema"
+
+/-- water as Avogadro 2 / Open Babel write it: every element name in the CML namespace -/
+def exNsDoc : List CmlElem :=
+  [{ name := ⟨exNs, "atomArray"⟩ },
+   { name := ⟨exNs, "atom"⟩, id := some "a1", elementType := some "O", x3 := some 0, y3 := some 0, z3 := some 0 },
+   { name := ⟨exNs, "atom"⟩, id := some "a2", elementType := some "H", x3 := some 1, y3 := some 0, z3 := some 0 },
+   { name := ⟨exNs, "bondArray"⟩ },
+   { name := ⟨exNs, "bond"⟩, atomRefs2 := some ["a2", "a1"], order := some 1 }]
+
+def outcome (r : Except Err Atoms) : String :=
+  match r with
+  | .ok _ => "ok"
+  | .error e => e.toString
+
+/-- a result as a decidable value: the error kind (or "ok") and the loaded structure -/
+def view (r : Except Err Atoms) : String × Option Atoms := (outcome r, r.toOption)
+
+/-- **the historical defect** (before the namespace repair): `findall('.//atom')` matches only names in no namespace,
+    so a document with the CML default namespace yields no atom entry and `zip(*[])` cannot be unpacked (ValueError);
+    the present lookup loads it, and loads the same thing as the namespace-free spelling. -/
+theorem cml_namespace_unrepaired_counterexample :
+    outcome (loadCmlElemsWith selectUnqualified massTable exNsDoc) = "reject:value"
+    ∧ outcome (loadCmlDoc exNsDoc) = "ok"
+    ∧ view (loadCmlDoc exNsDoc) = view (loadCmlDoc (renamespace (fun _ => none) exNsDoc))
+    ∧ (loadCmlDoc exNsDoc).toOption.map (fun r => (r.typeElems, r.bonds.terms.map (·.atoms))) =
+        some (["O", "H"], [[1, 0]]) := by
+  decide +kernel
+
 /-! ### non-vacuity (the real table) -/
 
 def exAtoms : List CmlAtom :=
@@ -256,15 +403,18 @@ example : (cmlIds exAtoms).Nodup := by decide
 example : (loadCml [⟨"a1", "Zr", ⟨0, 0, 0⟩⟩] []).toOption.map (fun r => (r.atoms.length, r.bonds.terms.length))
     = some (1, 0) := by decide +kernel
 
-def outcome (r : Except Err Atoms) : String :=
-  match r with
-  | .ok _ => "ok"
-  | .error e => e.toString
-
 /-- rejections: unknown reference, unknown element, no atom -/
 example : outcome (loadCml exAtoms [⟨"a1", "a2", 1⟩]) = "reject:key"
     ∧ outcome (loadCml [⟨"a1", "Xx", ⟨0, 0, 0⟩⟩] []) = "reject:key"
     ∧ outcome (loadCml [] []) = "reject:value"
     ∧ outcome (loadCml exAtoms exBonds) = "ok" := by decide +kernel
+
+/-- malformed entries of the element layer: a bond with three references (ValueError), a bond without order (KeyError),
+    an atom without x3 (KeyError); a foreign element named like nothing is ignored -/
+example :
+    outcome (loadCmlDoc (exNsDoc ++ [{ name := ⟨none, "bond"⟩, atomRefs2 := some ["a1", "a2", "a1"], order := some 1 }])) = "reject:value"
+    ∧ outcome (loadCmlDoc (exNsDoc ++ [{ name := ⟨none, "bond"⟩, atomRefs2 := some ["a1", "a2"] }])) = "reject:key"
+    ∧ outcome (loadCmlDoc (exNsDoc ++ [{ name := ⟨exNs, "atom"⟩, id := some "a3", elementType := some "H", y3 := some 0, z3 := some 0 }])) = "reject:key"
+    ∧ view (loadCmlDoc (exNsDoc ++ [{ name := ⟨some "urn:x", "propertyList"⟩ }])) = view (loadCmlDoc exNsDoc) := by decide +kernel
 
 end Mofun
